@@ -93,6 +93,16 @@ def run(ck):
     res3 = ck.read_result(o3)
     if res3["runs"] < 5000:
         raise Infra("vacuous: %d fault runs" % res3["runs"])
+    # messages of many sessions are emitted at the same time: sixteen goroutines encode and parse back their own
+    oc = os.path.join(ck.tmp, "c14c_out.json")
+    ck.run_driver("./c14", "^TestConcurrentEncode$", {"VERIF_OUT": oc}, timeout=600)
+    resc = ck.read_result(oc)
+    if resc["messages"] < 20000:
+        raise Infra("vacuous: %d messages in the concurrent leg" % resc["messages"])
+    ck.cov["concurrently_encoded_messages"] = resc["messages"]
+    if resc["wrong"]:
+        ck.violation("C14:message-emitted-beside-others-does-not-parse-back-to-itself",
+                     "%d of %d messages encoded while other goroutines encoded theirs did not parse back to what was built; %s" % (resc["wrong"], resc["messages"], resc["sample"][:700]), resc)
     bad = []
     nrec = 0
     for path, what in ((tr, "well-formed streams"), (trf, "damaged streams")):
